@@ -16,6 +16,8 @@ def run_adapter_resilient(binpath, args, outdir, env, what, max_restarts=50):
         tf = os.path.join(outdir, "trace-%05d.ndjson" % last)
         if not os.path.exists(tf):
             raise Infra("%s died before writing a trace (rc=%d)" % (what, r.returncode))
+        if os.path.getsize(tf) == 0:
+            raise Infra("%s died while setting up its scenario (before the first trace event): the driver cannot run on this tree (rc=%d)" % (what, r.returncode))
         with open(tf, "a") as f:
             f.write(json.dumps({"ev": "Crashed", "rc": r.returncode}) + "\n")
         restarts += 1
